@@ -2,7 +2,7 @@
    All theorems quantify over ALL byte strings bs; lz4d is an arbitrary (possibly failing) frame decoder. *)
 From Coq Require Import NArith Bool List.
 Import ListNotations.
-From XetModel Require Import Base.Codec Gen.HashConsts Gen.XorbLayout Model.Merkle Model.Shard Model.Xorb Proofs.ValidateProofs.
+From XetModel Require Import Base.Codec Gen.HashConsts Gen.XorbLayout Model.Merkle Model.Shard Model.Xorb Proofs.ValidateProofs Proofs.XorbProofs Proofs.XorbWholeProofs Proofs.XorbAcceptProofs.
 Open Scope N_scope.
 
 (* no Panic outcome is reachable in any footer parser or validator (every unwrap/index/subtraction of the Rust
@@ -49,6 +49,35 @@ Theorem C08_alloc_bounded : forall bs i t, parse_info bs = ROk (i, t) ->
   4 * N.of_nat (length (i_unpacked i)) <= N.of_nat (length bs).
 Proof. exact parse_info_alloc_bounded. Qed.
 
+(* completeness: every valid serialized xorb -- chunk hashes = data hashes of the chunks, xorb hash = aggregate of (chunk hash,
+   chunk length) -- is accepted by both validators for its own hash and rejected for every other hash, under every
+   compression scheme (lz4c/lz4d: any frame codec that round-trips; choose: any automatic scheme choice) *)
+Theorem C08_valid_xorb_accepted_seekable : forall lz4c lz4d choose,
+  (forall x, lz4d (lz4c x) = Some x) -> (forall x, choose x <= MAX_SCHEME) -> forall chunks scheme cashash h,
+  xorb_input_ok cashash chunks (map compute_data_hash chunks) -> fold_right N.add 0 (phys_lens lz4c choose chunks scheme) < 4294967296 ->
+  chunks <> [] -> scheme_valid scheme ->
+  cas_node_hash compute_internal_node_hash (map node_of chunks) = Some cashash ->
+  validate_cas_object lz4d (xorb_serialize lz4c choose cashash chunks (map compute_data_hash chunks) scheme) h =
+  if bytes_eqb cashash h then ROk (built_info lz4c choose cashash chunks (map compute_data_hash chunks) scheme) else RReject.
+Proof. exact valid_xorb_accepted. Qed.
+Theorem C08_valid_xorb_accepted_stream : forall lz4c lz4d choose,
+  (forall x, lz4d (lz4c x) = Some x) -> (forall x, choose x <= MAX_SCHEME) -> forall chunks scheme cashash h,
+  xorb_input_ok cashash chunks (map compute_data_hash chunks) -> fold_right N.add 0 (phys_lens lz4c choose chunks scheme) < 4294967296 ->
+  chunks <> [] -> scheme_valid scheme ->
+  cas_node_hash compute_internal_node_hash (map node_of chunks) = Some cashash ->
+  validate_stream lz4d (xorb_serialize lz4c choose cashash chunks (map compute_data_hash chunks) scheme) h =
+  if bytes_eqb cashash h then ROk 1 else RReject.
+Proof. exact valid_xorb_accepted_stream. Qed.
+
+(* the premises are satisfiable: a two-chunk xorb with its real aggregate hash, identity frame codec, scheme ByteGrouping4LZ4 *)
+Example C08_valid_xorb_nonvacuous :
+  let lz4c := fun x : list N => x in let lz4d := fun x : list N => Some x in let choose := fun _ : list N => 2 in
+  let chunks := [[1; 2; 3; 4; 5]; [9]] in
+  exists cashash, cas_node_hash compute_internal_node_hash (map node_of chunks) = Some cashash /\
+    validate_stream lz4d (xorb_serialize lz4c choose cashash chunks (map compute_data_hash chunks) None) cashash = ROk 1 /\
+    validate_stream lz4d (xorb_serialize lz4c choose cashash chunks (map compute_data_hash chunks) None) zero_hash = RReject.
+Proof. cbv zeta. eexists. split; [vm_compute; reflexivity|]. split; vm_compute; reflexivity. Qed.
+
 Example C08_boundaries_only_is_checked : boundaries_only_checked = true.
 Proof. reflexivity. Qed.
 (* the unchecked shape does panic: the witness found by the check before the repair *)
@@ -60,3 +89,5 @@ Print Assumptions C08_stream_validator_no_panic.
 Print Assumptions C08_seekable_sound.
 Print Assumptions C08_stream_sound.
 Print Assumptions C08_alloc_bounded.
+Print Assumptions C08_valid_xorb_accepted_seekable.
+Print Assumptions C08_valid_xorb_accepted_stream.
